@@ -240,6 +240,21 @@ def run(ctx):
     if not ok:
         finding('C07.c', 'R-PROV', sv, 'S3 metadata object source', 'embedded metadata is %s but the separate metadata object is written from %s' % (emb, sep))
 
+    from . import c11
+    c11.no_decoded_cache(ctx, res, cc, 'C07', 'C07.c')
+    # a fetch never answers from an object kept by an earlier fetch
+    for c in (mem, fil, s3):
+        g = F(c, 'get_recording')
+        early = [n for n in walk_own(g.node) if isinstance(n, ast.Return) and isinstance(n.value, (ast.Name, ast.Subscript, ast.Attribute, ast.Call)) and
+                 any(self_attr(x) or (isinstance(x, ast.Attribute) and self_attr(x.value)) for x in ast.walk(n.value)) and
+                 not any(isinstance(x, ast.Call) and isinstance(x.func, ast.Name) and x.func.id == 'MemoryRecording' for x in ast.walk(n.value))]
+        stores = [n for n in ast.walk(g.node) if isinstance(n, ast.Assign) and any(
+            self_attr(t) or (isinstance(t, ast.Subscript) and self_attr(t.value)) for t in n.targets)]
+        cc.instance('%s.get_recording neither stores what it fetched nor answers from a stored object' % c.name, g.qualname, not early and not stores)
+        for n in (early + stores)[:1]:
+            finding('C07.c', 'R-PROV', g, norm(n)[:120], '%s.get_recording keeps / reuses a fetched recording object: after the id is saved again (or the object is '
+                    'changed by a caller) a fetch returns stale or altered content, disagreeing with the stored recording' % c.name, n.lineno)
+
     # ---------------- C07.d missing id
     excm = ctx.excm(['playback.tape_cassettes.s3.s3_tape_cassette', 'playback.tape_cassettes.s3.s3_basic_facade', 'playback.tape_cassette',
                      'playback.tape_cassettes.in_memory.in_memory_tape_cassette', 'playback.tape_cassettes.file_based.file_based_tape_cassette',
